@@ -11,6 +11,8 @@ from harness.props import parsing
 
 RULE = ("every string of length <= L over the parser's 27 significant characters (L=4 quick, 5 thorough; "
         "separator inferred; both escape modes), every string of length <= 3 with the separator forced to '.' and '/', "
+        "a model-based state cover (breadth-first search over the abstract states of the Lean parser model: one shortest text per "
+        "state, extended by every significant and 19 ordinary/non-ASCII characters, so every (state, character) transition is taken), "
         "the corpus of past failures, and seeded random longer strings mixing those characters, keyword names and "
         "non-ASCII text.  Direct check on the real parser: the outcome is a segment list or a YAMLPathException "
         "(anything else, or a 5 s timeout, is a violation).  Correspondence: the outcome class (segments / YAML Path "
@@ -35,9 +37,16 @@ def corpus_cases():
     return cases
 
 
-def run(chk: core.Check, what="class"):
+def widen(chk: core.Check):
+    """Failing-input search after a broken obligation/correspondence: the thorough-tier case set
+    (every string of length <= 5, the larger state cover with two-symbol extensions)."""
+    chk.notes.append("widened search: thorough-tier case set")
+    run(chk, tier="thorough")
+
+
+def run(chk: core.Check, what="class", tier=None):
     core.use_repo()
-    tier = chk.tier
+    tier = tier or chk.tier
     if chk.replay_in:
         rp = json.load(open(chk.replay_in))
         c = rp.get("case", rp)
@@ -57,6 +66,21 @@ def run(chk: core.Check, what="class"):
             for b in parsing.ALPHABET:
                 pre = a + b
                 jobs.append(("EXH", pre, L, what))
+        # model-based: one representative per abstract state of the parser model, extended by every
+        # significant and several "ordinary" characters (every (state, character) transition)
+        reps = parsing.state_cover(max_states=14000 if tier == "quick" else 40000,
+                                   max_depth=14 if tier == "quick" else 18)
+        chk.extra_cov["state_cover_states"] = len(reps)
+        sc = []
+        for r_ in reps:
+            for a in parsing.ALPHABET + parsing.ODD:
+                sc.append((r_ + a, "auto"))
+        if tier != "quick":
+            rng2 = random.Random(chk.seed + 1)
+            for r_ in reps:
+                for _ in range(60):
+                    sc.append((r_ + rng2.choice(parsing.ALPHABET) + rng2.choice(parsing.ALPHABET + parsing.ODD), "auto"))
+        jobs += [(c, what) for c in core.chunked(sc, 64)]
         nrand = 60000 if tier == "quick" else 1500000
         rng = random.Random(chk.seed)
         rnd = []
